@@ -321,6 +321,8 @@ pub fn run(data: &[u8], ctx: &mut Ctx) -> Outcome {
             ctx.nontrivial = true;
             let r = if form == "bare" { nopanic!(ctx, te.uncompress(), "fault", &fkey) } else { nopanic!(ctx, te.uncompress_subject(), "fault", &fkey) };
             if let Ok(u) = r {
+                // an answer of "here is your envelope back, still compressed" is not a rejection
+                check!(ctx, u.to_cbor_data() != te.to_cbor_data(), "fault", &format!("{}/silently-unchanged", fkey), "after fault {} ({}) {} returned Ok with the unchanged, still compressed envelope instead of an error", names[kind], form, if form == "bare" { "uncompress" } else { "uncompress_subject" });
                 // whatever comes out must hash (by the harness's own recomputation) to the declared digest
                 let um = nopanic!(ctx, check_digests(&u), "fault", &fkey);
                 let um = tryp!(ctx, um, "fault", &fkey);
